@@ -164,6 +164,9 @@ class Engine:
         for h in st.pc:
             if not z3.is_quantifier(h):
                 s.add(h)
+        for _, ax in self.axioms:
+            if not z3.is_quantifier(ax):
+                s.add(ax)       # ground axioms (sentinels, environment assumptions) are cheap and help pruning
         s.add(z3.Not(f))
         return s.check() == z3.unsat
 
@@ -505,6 +508,15 @@ class Engine:
             return self.ext_value("op.invert", [x], fr)
         raise Unsupported("unary op")
 
+    def cond(self, node, fr):
+        """truth value of an expression used as a condition: and/or/not are evaluated on truth values directly"""
+        if isinstance(node, ast.BoolOp):
+            ts = [self.cond(v, fr) for v in node.values]
+            return z3.And(*ts) if isinstance(node.op, ast.And) else z3.Or(*ts)
+        if isinstance(node, ast.UnaryOp) and isinstance(node.op, ast.Not):
+            return z3.Not(self.cond(node.operand, fr))
+        return self.truth(self.ev(node, fr), fr)
+
     def ev_BoolOp(self, node, fr):
         vals = [self.ev(v, fr) for v in node.values]
         if all(v.k == "bool" for v in vals) or fr.spec:
@@ -549,7 +561,7 @@ class Engine:
         return mk_V(z3.If(c, self.as_V(a), self.as_V(b)))
 
     def ev_IfExp(self, node, fr):
-        c = self.truth(self.ev(node.test, fr), fr)
+        c = self.cond(node.test, fr)
         if z3.is_true(c):
             return self.ev(node.body, fr)
         if z3.is_false(c):
@@ -752,6 +764,8 @@ class Engine:
             return T_isin(cont.t, self.as_V(x))
         if cont.k == "iter":
             return T_sin(self.seq_V(cont, fr), self.as_V(x))
+        if cont.k == "py" and isinstance(cont.t, ExtRef) and cont.t.recv is None:
+            return T_isin(self.as_V(cont), self.as_V(x))      # an external container (os.environ): opaque membership
         raise Unsupported(f"membership in {cont.k}")
 
     def ev_Attribute(self, node, fr):
